@@ -25,10 +25,11 @@ def plan(tier):
                  ("pwl", ("reg", 5), 2), ("pwc", ("reg", 6), 1), ("pwl", ("reg", 6), 1),
                  ("pwc", ("near", 3), 2), ("pwl", ("near", 3), 2)]
     else:
-        specs = [("pwc", ("reg", 4), 3), ("pwl", ("reg", 4), 3), ("pwc", ("reg", 5), 3),
-                 ("pwl", ("reg", 5), 3), ("pwc", ("reg", 6), 2), ("pwl", ("reg", 6), 2),
-                 ("pwc", ("near", 3), 3), ("pwl", ("near", 3), 3), ("pwc", ("near", 4), 2),
-                 ("pwl", ("near", 4), 2)]
+        specs = [("pwc", ("reg", 4), 3), ("pwl", ("reg", 4), 3), ("pwc", ("reg", 5), 2),
+                 ("pwl", ("reg", 5), 2), ("pwc", ("reg", 6), 2), ("pwl", ("reg", 6), 2),
+                 ("pwc", ("reg", 7), 1), ("pwl", ("reg", 7), 1),
+                 ("pwc", ("near", 3), 2), ("pwl", ("near", 3), 2), ("pwc", ("near", 4), 1),
+                 ("pwl", ("near", 4), 1)]
     tasks = []
     desc = []
     for kind, spec, depth in specs:
